@@ -75,7 +75,14 @@ int main(int argc, char * argv[], char * envp[])
   //   --trace LEVEL       ; turns on trace logging
   //   --memory            ; turns on memory usage tracing
   //   --init-file         ; directs ledger to use a different init file
-  handle_debug_options(argc, argv);
+  try {
+    handle_debug_options(argc, argv);
+  }
+  catch (const std::exception& err) {
+    // nothing is set up yet that could report the error for us
+    std::cerr << _("Error: ") << err.what() << std::endl;
+    return 1;
+  }
 #if VERIFY_ON
   IF_VERIFY() initialize_memory_tracing();
 #endif
